@@ -90,7 +90,25 @@ func Run(dec Decider, horizon int, main func()) Outcome {
 	t0 := s.spawn("main", main)
 	s.cur = t0
 	t0.wake <- struct{}{}
-	out := <-s.result
+	var out Outcome
+	got := make(chan struct{})
+	go func() { out = <-s.result; close(got) }()
+	if !waitDone(got, 30) {
+		// The thread that holds the processor never came back to a scheduling point and the whole process has
+		// been blocked for 30 consecutive seconds: it is blocked in an operation outside scheduler control
+		// (e.g. a send on a full channel that was meant to refuse). Its goroutine is abandoned.
+		holder := "?"
+		if s.cur != nil {
+			holder = fmt.Sprintf("thread %d (%s)", s.cur.id, s.cur.name)
+		}
+		s.aborted = true
+		close(s.abort)
+		buf := make([]byte, 1<<16)
+		o := Outcome{Kind: "stuck", Detail: holder + " holds the processor and never reached another scheduling point; the process stayed blocked for 30 s (blocked outside scheduler control)", Steps: s.steps, Trace: s.traceTail(), Threads: len(s.threads)}
+		o.Stack = string(buf[:runtime.Stack(buf, true)])
+		cur = nil
+		return o
+	}
 	s.aborted = true
 	close(s.abort)
 	done := make(chan struct{})
